@@ -7,6 +7,7 @@ VERIF = os.path.dirname(os.path.dirname(os.path.abspath(__file__)))
 JOBS = int(os.environ.get("VERIF_JOBS", "12"))
 MC_WORKERS = JOBS
 MC_TIMEOUT = {"quick": 900, "thorough": 3400}
+GEN_BUDGET = int(os.environ.get("VERIF_GEN_BUDGET", "900"))   # thorough tier: seconds per direction-A enumeration before TLC is stopped
 MC_BUDGET = int(os.environ.get("VERIF_MC_BUDGET", "1500"))     # thorough tier: seconds per MC configuration before TLC is stopped
 SHARD = 25
 
